@@ -24,6 +24,7 @@ CONSTANTS Kinds,      \* kinds of objects 1..Len(Kinds): "sock" | "pipeR" | "pip
           TickUs,     \* microseconds per tick (only scales stamps)
           Class,      \* scenario class handed to the monitor: "gen" | "chain"
           Focus,      \* properties enforced by the monitor in this run
+          LateT,      \* timers that do not exist at the start: a "tnew" command creates them
           Late,       \* objects (indices into Kinds) that do not exist at the start: an "open" command creates them
           MaxHist,    \* 0: unbounded; otherwise simulation bound on ncmd handled by MaxCmds anyway
           BUG_HupOnly,          \* TRUE: Poll dispatches only on EPOLLIN/EPOLLOUT (HUP/ERR-only events are never dispatched)
@@ -46,7 +47,7 @@ VARIABLES
   trep,       \* [T -> 0 | interval]                repeating closure installed
   \* --- ghost: by which code path the current registration was established (no effect on behaviour;
   \*     part of the VIEW so that the transition cover continues after every distinct path) ---
-  thow,       \* [T -> "none" | "set" | "stale"]
+  thow,       \* [T -> [h : "none" | "set" | "stale", b : where the timer was created]]
   ohow,       \* [O -> [R, W : "none" | "first" | "limit" | "retry", B : where the object was created]]
   \* --- kernel / environment ---
   rdata,      \* [O -> 0..MaxData]   readable units (bytes / queued connections / datagrams)
@@ -95,14 +96,15 @@ NoEvent  == UNCHANGED <<monvars, hist>>
 
 LateMask == (IF 1 \in Late THEN 1 ELSE 0) + (IF 2 \in Late THEN 2 ELSE 0) + (IF 3 \in Late THEN 4 ELSE 0)
             + (IF 4 \in Late THEN 8 ELSE 0)
-ResetEv == [Z EXCEPT !.ev = "Reset", !.kinds = Kinds, !.cls = Class, !.lim = Limit, !.n = NT, !.d = LateMask]
+LateTMask == (IF 1 \in LateT THEN 1 ELSE 0) + (IF 2 \in LateT THEN 2 ELSE 0) + (IF 3 \in LateT THEN 4 ELSE 0)
+ResetEv == [Z EXCEPT !.ev = "Reset", !.kinds = Kinds, !.cls = Class, !.lim = Limit, !.n = NT, !.d = LateMask, !.h = LateTMask]
 
 Init ==
   /\ interest = [o \in O |-> {}] /\ rop = [o \in O |-> 0] /\ wop = [o \in O |-> 0]
   /\ oclosed = [o \in O |-> o \in Late] /\ pending = 0 /\ dispatched = 0 /\ posts = <<>>
-  /\ tst = [t \in T |-> "ready"] /\ tcan = [t \in T |-> FALSE] /\ tint = [t \in T |-> FALSE]
+  /\ tst = [t \in T |-> IF t \in LateT THEN "unborn" ELSE "ready"] /\ tcan = [t \in T |-> FALSE] /\ tint = [t \in T |-> FALSE]
   /\ trep = [t \in T |-> 0]
-  /\ thow = [t \in T |-> "none"] /\ ohow = [o \in O |-> [R |-> "none", W |-> "none", B |-> IF o \in Late THEN "unborn" ELSE "init"]]
+  /\ thow = [t \in T |-> [h |-> "none", b |-> IF t \in LateT THEN "unborn" ELSE "init"]] /\ ohow = [o \in O |-> [R |-> "none", W |-> "none", B |-> IF o \in Late THEN "unborn" ELSE "init"]]
   /\ rdata = [o \in O |-> 0] /\ peer = [o \in O |-> "open"] /\ wfull = [o \in O |-> FALSE]
   /\ yanked = [o \in O |-> FALSE] /\ rcount = [o \in O |-> 0]
   /\ tarmed = [t \in T |-> -1] /\ texp = [t \in T |-> FALSE] /\ evfd = FALSE /\ rdy = <<>> /\ now = 0
@@ -266,7 +268,7 @@ UnsetT(t) ==
     THEN /\ tint' = [tint EXCEPT ![t] = FALSE] /\ pending' = pending - 1
          /\ tarmed' = [tarmed EXCEPT ![t] = -1] /\ texp' = [texp EXCEPT ![t] = FALSE]
          /\ rdy' = Without(rdy, TEnt(t))
-         /\ thow' = [thow EXCEPT ![t] = "none"]
+         /\ thow' = [thow EXCEPT ![t].h = "none"]
     ELSE UNCHANGED <<tint, pending, tarmed, texp, rdy, thow>>
 
 \* Timer.ScheduleOnce(d, cb) with d > 0 when the state is ready (Set = Unset; settime; SetRead)
@@ -276,7 +278,7 @@ ArmT(t, d) ==
   /\ pending' = IF tint[t] THEN pending ELSE pending + 1
   /\ tarmed' = [tarmed EXCEPT ![t] = d] /\ texp' = [texp EXCEPT ![t] = FALSE]
   /\ rdy' = Without(rdy, TEnt(t))
-  /\ thow' = [thow EXCEPT ![t] = "set"]
+  /\ thow' = [thow EXCEPT ![t].h = "set"]
   /\ tst' = [tst EXCEPT ![t] = "sched"]
 
 TSched(t, rep, d) ==
@@ -291,6 +293,19 @@ TSched(t, rep, d) ==
   /\ Emit([Z EXCEPT !.ev = "TSchedB", !.t = t, !.n = rep, !.d = d * TickUs, !.ts = now * TickUs,
                      !.h = 1 + Cardinality({i \in DOMAIN hist : hist[i].ev = "TSchedB"})])
   /\ UNCHANGED <<interest, rop, wop, oclosed, dispatched, posts, ohow, rdata, rcount, peer, wfull, yanked, evfd, now,
+                 inpoll, batch, bi, bphase, pq, nop, npost, drain, dpolls, done>>
+
+\* sonic.NewTimer: a timerfd is created (lowest free descriptor number), nothing is registered
+TNew(t) ==
+  /\ CanCmd /\ "tnew" \in Cmds /\ tst[t] = "unborn"
+  /\ ncmd' = ncmd + 1
+  /\ tst' = [tst EXCEPT ![t] = "ready"]
+  /\ thow' = [thow EXCEPT ![t].b = (IF stack = <<>> THEN "top" ELSE "cb") \o
+                                   (IF (\E u \in T : tst[u] = "closed") \/ (\E p \in O : oclosed[p] /\ ohow[p].B # "unborn")
+                                      THEN "+reuse" ELSE "")]
+  /\ stack' = Push(<<>>)
+  /\ Emit([Z EXCEPT !.ev = "TNew", !.t = t])
+  /\ UNCHANGED <<interest, rop, wop, oclosed, pending, dispatched, posts, tcan, tint, trep, ohow, envvars,
                  inpoll, batch, bi, bphase, pq, nop, npost, drain, dpolls, done>>
 
 TCancel(t) ==
@@ -488,13 +503,13 @@ PollStep ==
                 IF ~texp[t] /\ ~BUG_StaleTimer THEN
                    \* repaired handler: the read of the timerfd fails, the interest is set again
                    /\ NoEvent /\ UNCHANGED <<tint, pending, texp, tst, stack, rdy>>
-                   /\ thow' = [thow EXCEPT ![t] = "stale"]
+                   /\ thow' = [thow EXCEPT ![t].h = "stale"]
                 ELSE
                    /\ tint' = [tint EXCEPT ![t] = FALSE] /\ pending' = pending - 1
                    /\ texp' = [texp EXCEPT ![t] = FALSE]
                    /\ rdy' = Without(rdy, x)
                    /\ tst' = [tst EXCEPT ![t] = "ready"]
-                   /\ thow' = [thow EXCEPT ![t] = "none"]
+                   /\ thow' = [thow EXCEPT ![t].h = "none"]
                    /\ stack' = <<CbFrame("tm", t, FALSE)>> \o (IF trep[t] > 0 THEN <<Fr("rearm", t)>> ELSE <<>>)
                    /\ Emit([Z EXCEPT !.ev = "TFireB", !.t = t, !.ts = now * TickUs, !.depth = 1, !.h = tm[t].sn])
              ELSE NoEvent /\ UNCHANGED <<tint, pending, texp, tst, stack, rdy, thow>>
@@ -606,7 +621,7 @@ DrainStep ==
 Command ==
   /\ \/ \E o \in O : Start("R", o) \/ Start("W", o) \/ Cancel(o) \/ Close(o) \/ Open(o)
      \/ Post
-     \/ \E t \in T : TCancel(t) \/ TClose(t) \/ (\E d \in 1..2 : TSched(t, 0, d) \/ TSched(t, 1, d))
+     \/ \E t \in T : TNew(t) \/ (tst[t] # "unborn" /\ (TCancel(t) \/ TClose(t) \/ (\E d \in 1..2 : TSched(t, 0, d) \/ TSched(t, 1, d))))
   \* a top-level command is followed by a sample of the getters once it has run to completion
   /\ needSample' = (needSample \/ stack = <<>>)
 
@@ -651,7 +666,7 @@ TmView == [t \in DOMAIN tm |-> [tm[t] EXCEPT !.sn = 0, !.attsn = 0]]
 View == <<libvars, envvars, ctlvars, rpin, rpdone,
           <<kinds, cls, lim, base, ost, ops, csnap, TmView, posted, ranp, anomaly, rnext, bad>>>>
 
-IsCmdEv(e) == e.ev \in {"Call", "CancelB", "CloseB", "PostE", "TSchedB", "TCancelE", "TCloseE", "Env", "PollB", "Open"}
+IsCmdEv(e) == e.ev \in {"Call", "CancelB", "CloseB", "PostE", "TSchedB", "TCancelE", "TCloseE", "Env", "PollB", "Open", "TNew"}
 
 \* transition cover: every generated transition that issues a command (outside
 \* the model's drain phase) is printed as the history leading to it; the driver
